@@ -121,3 +121,57 @@ Theorem C06_capstone_nonvacuous_cond :
     /\ normal64 (/ 2 * rsum rnd64 (map2 (fun a b => Rabs (rnd64 (a - b))) (map f2r x) (map f2r y)))
     /\ Forall (fun d => normal64 (d ^ 2)) (map2 (fun a b => rnd64 (a - b)) (map f2r x) (map f2r y)).
 Proof. exact capstone_nonvacuous_cond. Qed.
+
+(* average_euclidean: the sibling call to squared_euclidean (its squares), then the division by the length; the final
+   square root of a binary64 number never underflows *)
+Theorem C06_capstone_average_euclidean : forall (x y : list PrimFloat.float) (f : PrimFloat.float),
+  Forall (fun a => ffin a = true) x -> Forall (fun a => ffin a = true) y -> length x = length y -> (1 <= length x)%nat ->
+  (Z.of_nat (length x) <= 2 ^ 53)%Z ->
+  metric_fltc ir_average_euclidean x y = Some f ->
+  Forall (fun d => normal64 (d ^ 2)) (map2 (fun a b => rnd64 (a - b)) (map f2r x) (map f2r y)) ->
+  normal64 (rsum rnd64 (map2 (fun a b => rnd64 (rnd64 (a - b) ^ 2)) (map f2r x) (map f2r y)) / len (map f2r x)) ->
+  Rabs (f2r f - sp_average_euclidean (map f2r x) (map f2r y))
+  <= ((1 + u64) ^ ((length x + 4) / 2 + 1) - 1) * sp_average_euclidean (map f2r x) (map f2r y).
+Proof. exact capstone_average_euclidean. Qed.
+
+Theorem C06_capstone_nonvacuous_average :
+  exists (x y : list PrimFloat.float) (f : PrimFloat.float),
+    Forall (fun a => ffin a = true) x /\ Forall (fun a => ffin a = true) y /\ length x = length y /\ length x = 2%nat
+    /\ (Z.of_nat (length x) <= 2 ^ 53)%Z
+    /\ metric_fltc ir_average_euclidean x y = Some f
+    /\ Forall (fun d => normal64 (d ^ 2)) (map2 (fun a b => rnd64 (a - b)) (map f2r x) (map f2r y))
+    /\ normal64 (rsum rnd64 (map2 (fun a b => rnd64 (rnd64 (a - b) ^ 2)) (map f2r x) (map f2r y)) / len (map f2r x)).
+Proof. exact capstone_nonvacuous_average. Qed.
+
+(* ---------------- observable side condition ----------------
+   Where the only rounding that can underflow is the LAST one (gower, non_intersection), "the returned float is above the
+   smallest normal number 2^-1022" implies the side condition: a result above 2^-1022 was not produced by an underflowing
+   rounding (rnd64 is monotone and fixes 2^-1022). *)
+Theorem C06_capstone_result_above_minnormal : forall t : R, / 2 ^ 1022 < Rabs (rnd64 t) -> normal64 t.
+Proof. exact rnd64_gt_normal. Qed.
+
+Theorem C06_capstone_gower_observable : forall (x y : list PrimFloat.float) (f : PrimFloat.float),
+  Forall (fun a => ffin a = true) x -> Forall (fun a => ffin a = true) y -> length x = length y -> (1 <= length x)%nat ->
+  (Z.of_nat (length x) <= 2 ^ 53)%Z ->
+  metric_fltc ir_gower x y = Some f ->
+  / 2 ^ 1022 < f2r f ->
+  Rabs (f2r f - sp_gower (map f2r x) (map f2r y))
+  <= ((1 + u64) ^ (length x + 1) - 1) * sp_gower (map f2r x) (map f2r y).
+Proof. exact capstone_gower_observable. Qed.
+
+Theorem C06_capstone_non_intersection_observable : forall (x y : list PrimFloat.float) (f : PrimFloat.float),
+  Forall (fun a => ffin a = true) x -> Forall (fun a => ffin a = true) y -> length x = length y -> (1 <= length x)%nat ->
+  (Z.of_nat (length x) <= 2 ^ 53)%Z ->
+  metric_fltc ir_non_intersection x y = Some f ->
+  / 2 ^ 1022 < f2r f ->
+  Rabs (f2r f - sp_non_intersection (map f2r x) (map f2r y))
+  <= ((1 + u64) ^ (length x + 1) - 1) * sp_non_intersection (map f2r x) (map f2r y).
+Proof. exact capstone_non_intersection_observable. Qed.
+
+Theorem C06_capstone_nonvacuous_observable :
+  exists (x y : list PrimFloat.float) (f1 f2 : PrimFloat.float),
+    Forall (fun a => ffin a = true) x /\ Forall (fun a => ffin a = true) y /\ length x = length y /\ length x = 2%nat
+    /\ (Z.of_nat (length x) <= 2 ^ 53)%Z
+    /\ metric_fltc ir_gower x y = Some f1 /\ / 2 ^ 1022 < f2r f1
+    /\ metric_fltc ir_non_intersection x y = Some f2 /\ / 2 ^ 1022 < f2r f2.
+Proof. exact capstone_nonvacuous_observable. Qed.
